@@ -6,6 +6,8 @@ import os, glob, hashlib
 from twisted.internet import defer
 from twisted.python.failure import Failure
 from twisted.application import service
+from twisted.internet.interfaces import IConsumer
+from zope.interface import implementer
 from foolscap.api import Referenceable, RemoteException, DeadReferenceError
 from vf import boot, store
 from vf.sched import Sched, InjectedError
@@ -244,6 +246,7 @@ class Grid:
 
 
 # ---- helpers used by many properties -------------------------------------------------
+@implementer(IConsumer)
 class Consumer:
     """IConsumer that records what it gets and can pause/resume/stop after the n-th write."""
 
